@@ -29,8 +29,7 @@ LOADER_SCALARS = ["PyInt", "PyFloat", "PyComplex", "PyBool", "PyStr", "NpInt", "
 API_EXTRA = ["NpBool"]
 
 
-class Pieces(list):
-    pass
+LIST_REBOUND = None
 
 
 class TemplateEval:
@@ -157,20 +156,46 @@ def isinstance_chain(stmts, var):
     return None, None
 
 
-def select_arm(arms, var, kind):
+def possible_arms(arms, var, kind):
+    """arms that may catch a value of this kind: every arm whose test is true or undecidable for the kind, up to the first that is definitely true"""
     k = XK[kind]
 
     def atom(node):
         if isinstance(node, ast.Name) and node.id == var:
             return k
         return AEval.NO
+    out = []
     for test, body in arms:
         if test is None:
-            return body, "else"
+            out.append((body, "else", True))
+            break
         ev = AEval(atom)
-        if ev.truth(ev.ev(test)):
-            return body, " ".join(u(test).split())
-    return None, None
+        try:
+            c = ev.truth(ev.ev(test))
+        except Exception:
+            # undecidable conjunct: if an isinstance conjunct on the value is definitely false the arm cannot match
+            c = None
+            if isinstance(test, ast.BoolOp) and isinstance(test.op, ast.And):
+                for part in test.values:
+                    try:
+                        if not ev.truth(ev.ev(part)):
+                            c = False
+                            break
+                    except Exception:
+                        pass
+        if c is True:
+            out.append((body, " ".join(u(test).split()), True))
+            break
+        if c is None:
+            out.append((body, " ".join(u(test).split()), False))
+    return out
+
+
+def select_arm(arms, var, kind):
+    pa = possible_arms(arms, var, kind)
+    if not pa:
+        return None, None
+    return pa[-1][0], pa[-1][1]
 
 
 def appended(ix, body, collections, inner_binding=None, fn=None):
@@ -198,6 +223,8 @@ class Slot:
 
 
 def find_slots(ix):
+    global LIST_REBOUND
+    LIST_REBOUND = None
     f = ix.func(SER)
     fn = f.node
     slots = []
@@ -212,9 +239,12 @@ def find_slots(ix):
         elif it in ("data['options'].items()", 'data["options"].items()'):
             slots.append(Slot("metadata option", f, l, u(l.target.elts[1]), u(l.target.elts[0]), ("option_strings",), True))
     g = ix.func("program.list_to_blackbird")
+    rebound = [n for n in ast.walk(g.node) if isinstance(n, (ast.Assign, ast.AugAssign)) and any(isinstance(x, ast.Name) and x.id == g.params[0] and isinstance(x.ctx, ast.Store) for x in ast.walk(n))]
     for l in walk_shallow(g.node):
-        if isinstance(l, ast.For) and u(l.iter) == g.params[0]:
+        if isinstance(l, ast.For) and u(l.iter) == g.params[0] and not rebound:
             slots.append(Slot("list element", g, l, u(l.target), None, ("elements",), False))
+    if rebound:
+        LIST_REBOUND = (g, rebound[0])
     return slots
 
 
@@ -225,45 +255,50 @@ def render_checks(rep, R, ix, L, slot, kinds, tdm_kinds=True):
     if arms is None:
         raise Inconclusive("%s: isinstance dispatch over `%s` not recognised" % (slot.name, slot.var))
     for kind in kinds:
-        body, which = select_arm(arms, slot.var, kind)
-        site = ix.site(f, chain)
-        what = "%s of kind %s" % (slot.name, kind)
-        if body is None:
-            rep.bad(R, site, "%s is formatted by some arm" % what, "no arm of the dispatch catches it", key="%s|%s|noarm" % (slot.name, kind))
-            continue
-        binding = None
-        if kind in ("PyStr", "PName"):
-            s = "p0" if kind == "PName" else "hello"
-            t = "tdm" if kind == "PName" else "other"
-            binding = {slot.var: s, "self.programtype['name']": t, 'self.programtype["name"]': t}
-        try:
-            apps = appended(ix, body, slot.collections, binding, fn=f.node)
-        except Exception as e:
-            if kind == "NdArray":
-                continue          # the array arm is decided structurally by the hoisting rule
-            rep.unknown(R, site, "%s is appended exactly once by the arm `%s`" % (what, which), "conditional inside the arm: %s" % e)
-            continue
-        if len(apps) != 1:
-            rep.unknown(R, site, "%s is appended exactly once by the arm `%s`" % (what, which), "found %d appends" % len(apps))
-            continue
-        call, expr, stmt = apps[0]
-        roles = {slot.var: ("value", kind)}
-        if slot.key:
-            roles[slot.key] = ("key",)
-        roles["var_name"] = [("hole", "SH_ANAME")]
-        roles.update(local_aliases(body, roles))
-        try:
-            pieces = TemplateEval(ix, f.mod, f.node, roles).ev(expr)
-        except Inconclusive as e:
-            rep.unknown(R, ix.site(f, call), "%s: template of `%s`" % (what, " ".join(u(expr).split())[:60]), str(e))
-            continue
-        if slot.prefix:
-            if len(pieces) >= 2 and pieces[0] == ("hole", "SH_NAME") and pieces[1][0] == "lit" and pieces[1][1].startswith("="):
-                pieces = ([("lit", pieces[1][1][1:])] if pieces[1][1][1:] else []) + pieces[2:]
-            else:
-                rep.bad(R, ix.site(f, call), "%s is written as <name>=<value>" % what, "template %s" % (pieces,), key="%s|%s|prefix" % (slot.name, kind))
-                continue
-        decide(rep, R, ix, L, f, call, what, kind, pieces, which, slot)
+      pa = possible_arms(arms, slot.var, kind)
+      site = ix.site(f, chain)
+      what = "%s of kind %s" % (slot.name, kind)
+      if not pa:
+          rep.bad(R, site, "%s is formatted by some arm" % what, "no arm of the dispatch catches it", key="%s|%s|noarm" % (slot.name, kind))
+          continue
+      for body, which, sure in pa:
+          binding = None
+          if kind in ("PyStr", "PName"):
+              s = "p0" if kind == "PName" else "hello"
+              t = "tdm" if kind == "PName" else "other"
+              binding = {slot.var: s, "self.programtype['name']": t, 'self.programtype["name"]': t}
+          try:
+              apps = appended(ix, body, slot.collections, binding, fn=f.node)
+          except Exception as e:
+              if kind == "NdArray":
+                  continue          # the array arm is decided structurally by the hoisting rule
+              rep.unknown(R, site, "%s is appended exactly once by the arm `%s`" % (what, which), "conditional inside the arm: %s" % e)
+              continue
+          if len(apps) != 1:
+              rep.unknown(R, site, "%s is appended exactly once by the arm `%s`" % (what, which), "found %d appends" % len(apps))
+              continue
+          call, expr, stmt = apps[0]
+          roles = {slot.var: ("value", kind)}
+          if slot.key:
+              roles[slot.key] = ("key",)
+          roles["var_name"] = [("hole", "SH_ANAME")]
+          roles.update(local_aliases(body, roles))
+          try:
+              pieces = TemplateEval(ix, f.mod, f.node, roles).ev(expr)
+          except Inconclusive as e:
+              if kind == "NdArray":
+                  rep.bad(R, ix.site(f, call), "%s is replaced by the name of a hoisted declaration of its own" % what,
+                          "arm `%s` writes `%s`: the value may be replaced by a reference to a different variable" % (which, " ".join(u(expr).split())[:60]), key="%s|%s|%s" % (slot.name, kind, which[:40]))
+              else:
+                  rep.unknown(R, ix.site(f, call), "%s: template of `%s`" % (what, " ".join(u(expr).split())[:60]), str(e))
+              continue
+          if slot.prefix:
+              if len(pieces) >= 2 and pieces[0] == ("hole", "SH_NAME") and pieces[1][0] == "lit" and pieces[1][1].startswith("="):
+                  pieces = ([("lit", pieces[1][1][1:])] if pieces[1][1][1:] else []) + pieces[2:]
+              else:
+                  rep.bad(R, ix.site(f, call), "%s is written as <name>=<value>" % what, "template %s" % (pieces,), key="%s|%s|prefix" % (slot.name, kind))
+                  continue
+          decide(rep, R, ix, L, f, call, what, kind, pieces, which, slot)
 
 
 def decide(rep, R, ix, L, f, call, what, kind, pieces, which, slot):
@@ -315,6 +350,11 @@ def kind_coverage(rep, R, ix, M, extra_kinds=()):
     L = Lang(M.G)
     slots = find_slots(ix)
     names = {s.name for s in slots}
+    if LIST_REBOUND is not None:
+        g, n = LIST_REBOUND
+        rep.bad(R, ix.site(g, n), "list_to_blackbird formats the elements it is given", "`%s` replaces the list by a converted copy (mixed lists are coerced to one type)" % " ".join(u(n).split())[:70], key="list|rebound")
+        slots = [s for s in slots if s.name != "list element"]
+        names.add("list element")
     for need in ("positional argument", "keyword argument", "metadata option", "list element"):
         if need not in names:
             raise Inconclusive("serialize: %s loop not recognised" % need)
@@ -495,6 +535,10 @@ def arrays(rep, R, ix, M, L):
     sn = s.node
     for slot in [x for x in find_slots(ix) if x.name in ("positional argument", "keyword argument")]:
         arms_, chain_ = isinstance_chain(slot.loop.body, slot.var)
+        pa_ = possible_arms(arms_, slot.var, "NdArray")
+        for body, which, sure in pa_[:-1]:
+            rep.bad(R, ix.site(s, chain_), "%s: every array value gets a hoisted declaration of its own" % slot.name,
+                    "under `%s` the array is written some other way (`%s`)" % (which, " ".join(u(body[0]).split())[:60] if body else ""), key="hoist|extra arm|" + slot.name)
         body, which = select_arm(arms_, slot.var, "NdArray")
         txt = [" ".join(u(x).split()) for x in body]
         want_body = ["var_name = 'A{}'.format(var_count)",
